@@ -411,8 +411,9 @@ def dipole(chk):
     rec = {}
 
     def moments_contract(eng_, f, args, kwargs):
-        rec["args"] = [a for a in args if not isinstance(a, I.Obj)]
-        rec["kwargs"] = dict(kwargs)
+        b = framework.bound_arguments(eng_, f, args, kwargs)          # positional and keyword forms are the same call
+        rec["args"] = [b.get("orders"), b.get("centers"), b.get("func_vals")]
+        rec["kwargs"] = {"type_mom": b.get("type_mom", "cartesian"), "return_orders": b.get("return_orders", False)}
         orders = M.array_from_seq(eng_, [[0, 0, 0], [1, 0, 0], [0, 1, 0], [0, 0, 1]])      # generate_orders_horton_order(1, "cartesian", 3), proved in order_generator
         return (I.Arr((4, 1), lambda t, j: MOM(T.zi(t)), "real"), orders)
 
